@@ -96,6 +96,17 @@ SPECS = {
         search=False,
         explanation="the shared-state summary regenerated from the source on this run, the discipline evaluated on it, NewAtom's critical sections checked against the shapes the interleaving theorems cover; 2-8 interpreters run concurrently under the race detector and compared with runs alone; concurrent interning of identical fresh atoms; state changers against observers across interpreters",
     ),
+    "C05": dict(
+        level="proof", props_deps=["Proofs/NoPanic.v", "Proofs/ArithInt.v", "Gen/Arith_gen.v"], model_deps=[],
+        trusted=COMMON_TRUSTED + ["PARTIAL: the theorems cover the integer arithmetic kernels and integer expressions (regenerated from number.go) and the error constructors of the machine model; the reader, the other built-ins and the float kernels are not proved free of panics",
+                                  "for everything else the property is decided by enumeration on the implementation: every registered predicate x argument shapes and every short byte string, each in a fresh interpreter inside an isolated worker process (memory limit, step budget, watchdog); that part is exhaustive-over-shapes testing, not proof",
+                                  "the registry is read from interpreter.go (Register<N> calls) and bootstrap.pl (through the implementation's reader) on every run"],
+        assumptions=["halt/0,1 and cyclic terms are excluded (as the property says); inputs beyond the 4 GB address-space limit of a worker are not generated",
+                     "throw/1 delivering the caller's ball is not an error raised about its arguments",
+                     "a goal that runs until the step budget while polling the context (repeat/0, between/3 to inf ...) is neither a crash nor a wedge"],
+        search=False,
+        explanation="registered predicates x 26 argument shapes (all for arity 1, pairs for arity 2, samples above) and byte strings (all up to length 2 over 31 symbols, samples and all of length 3 in the thorough tier, truncations and mutations of valid texts) as query and program text; outcome of every task classified: answers / failure / ISO error / rejected text / budget / panic residue / non-ISO error / process aborted / wedged",
+    ),
     "C12": dict(
         level="proof", props_deps=["Proofs/Solutions.v"], model_deps=["Model/SolutionsCheck.v"],
         trusted=COMMON_TRUSTED + ["hand-written handshake model Model/Solutions.v under run-to-block semantics; Go channels, scheduler and memory model are not modelled"],
